@@ -378,6 +378,11 @@ for _p in ("C05", "C11", "C12"):
 PROPS["C12"]["verus"].append({"unit": U5, "fns": ["ClusterState::remove_node"]})
 PROPS["C05"]["level_text"] += " Chitchat::report_heartbeats_in_digest (loop over any digest) is proved to leave the local node's own copy - heartbeat included - and the live/dead classification untouched, and not to touch members the digest does not mention."
 PROPS["C12"]["level_text"] += " ClusterState::remove_node is proved to drop the member's state and to remember exactly the heartbeat known at removal."
+PROPS["C05"]["verus"].append({"unit": U5, "fns": ["Chitchat::process_message__budget", "Chitchat::process_delta", "Chitchat::update_self_heartbeat", "lemma_honest_rejects"]})
+PROPS["C05"]["level_text"] += " The per-message step is proved through the real glue (Chitchat::process_message with all three accepting paths kept, process_delta, report_heartbeats_in_digest, update_self_heartbeat): if what a SYN / SYN-ACK / ACK says about the local node is not ahead of the local node's own max version - all an honest peer can hold - then after processing it the node's own key-values, versions and GC watermark are untouched and its heartbeat moved by exactly its own activity (+1)."
+PROPS["C20"]["verus"].append({"unit": U5, "fns": ["Chitchat::process_delta"]})
+PROPS["C20"]["level_text"] += " Chitchat::process_delta is proved to reach the callback invocation only when that flag is true (the call site carries the flag as a ghost argument that Verus checks), i.e. never for messages that only apply incremental updates, are rejected or carry nothing."
+PROPS["C20"]["level_note"] = "The callback itself is a Box<dyn Fn()> (opaque); that it is invoked exactly once - not zero times - when the flag is raised is read off the three-line call site and checked by the bounded driver c20_callback with a counting callback (0/1/2 resets per message, newly created members)."
 U2_CODEC = ["ChitchatId::serialize", "ChitchatId::serialized_len", "Heartbeat::serialize", "Heartbeat::serialized_len", "NodeDigest::serialize",
             "NodeDigest::serialized_len", "alloc::string::String::serialize", "alloc::string::String::serialized_len",
             "DeletionStatusMutation::serialize", "DeletionStatusMutation::serialized_len", "KeyValueMutationRef::serialize",
